@@ -684,6 +684,25 @@ proof fn lemma_layout_harmonic_mean<A: Float + FromPrimitive, D: Dimension>(a1: 
            r1 is Ok && r2 is Ok && mean_def(rec) != 0real ==> r1->Ok_0.val() == r2->Ok_0.val() }), // [C20]
 {
 }
+proof fn lemma_layout_weighted_std<A: AddAssign + Float + FromPrimitive, D: Dimension>(a1: ArrayN<A, D>, a2: ArrayN<A, D>, w1: ArrayN<A, D>, w2: ArrayN<A, D>, ddof: A, r1: Result<A, MultiInputError>, r2: Result<A, MultiInputError>)
+    requires
+        same_logical(&a1, &a2), same_logical(&w1, &w2),
+        call_ensures(ArrayN::<A, D>::weighted_std, (&a1, &w1, ddof), r1), call_ensures(ArrayN::<A, D>::weighted_std, (&a2, &w2, ddof), r2),
+    ensures
+        r1 is Err <==> r2 is Err, r1 is Err ==> same_err(r1->Err_0, r2->Err_0), // [C20]
+        ({ let xs = vals(a1@); let ws = vals(w1@); let wt = wpsum(xs, ws, 0, xs.len() as int);
+           r1 is Ok && wt > 0real && wt - ddof.val() != 0real ==> r1->Ok_0.val() == r2->Ok_0.val() }), // [C20]
+{
+}
+proof fn lemma_layout_geometric_mean<A: Float + FromPrimitive, D: Dimension>(a1: ArrayN<A, D>, a2: ArrayN<A, D>, r1: Result<A, MinMaxError>, r2: Result<A, MinMaxError>)
+    requires
+        same_logical(&a1, &a2),
+        call_ensures(ArrayN::<A, D>::geometric_mean, (&a1,), r1), call_ensures(ArrayN::<A, D>::geometric_mean, (&a2,), r2),
+    ensures
+        r1 is Err ==> r1 == r2, r2 is Err ==> r1 == r2, // [C20]
+        r1 is Ok && r2 is Ok ==> r1->Ok_0.val() == r2->Ok_0.val(), // [C20]
+{
+}
 
 } // verus!
 fn main() {}
